@@ -601,17 +601,15 @@ Proof.
 Qed.
 
 (* no arithmetic-overflow panic in release: the borrowed count a release sees is >= 1 *)
-Theorem uis_no_panic c dist progs g ls t :
-  c < 16777215 -> reach_via ustep bounded_tag (uinit c dist progs) (g, ls) -> upc_of (ls t) <> UDead.
+Lemma uis_no_panic_cfg c dist progs cfg0 :
+  c < 16777215 -> reach_via ustep bounded_tag (uinit c dist progs) cfg0 -> forall t, upc_of (snd cfg0 t) <> UDead.
 Proof.
-  intros Hc Hr. remember (g, ls) as cfg0 eqn:E. revert g ls E.
-  induction Hr as [H0|t0 c0 c' e Hr IH Hs HP]; intros g ls E.
-  - inversion E; subst. cbn. discriminate.
+  intros Hc Hr. induction Hr as [H0|t0 c0 c' e Hr IH Hs HP]; intros t.
+  - cbn. discriminate.
   - destruct c0 as [g0 ls0]. pose proof (uis_inv_reach _ _ _ _ Hc Hr) as [HG HL]. cbn [fst snd] in *.
-    specialize (IH g0 ls0 eq_refl).
     unfold step1 in Hs. cbn [fst snd] in Hs.
     destruct (ustep t0 g0 (ls0 t0)) as [[[g' l'] e']|] eqn:Est; [|discriminate]. inversion Hs; subst c' e; clear Hs.
-    inversion E; subst g ls; clear E.
+    cbn [snd].
     destruct (Nat.eq_dec t t0) as [->|Hne]; [rewrite upd_l_same|rewrite upd_l_other by assumption; apply IH].
     destruct (HL t0) as (_ & _ & Hpc). unfold ustep, acq_dispatch in Est.
     destruct (upc_of (ls0 t0)) as [|ov u0|ov u0|ov nx u0|idx|idx|i m ov u0|i m ov u0|i m ov u0|] eqn:Epc; cbn [PcInv] in Hpc;
@@ -620,3 +618,7 @@ Proof.
     destruct (rel_borrowed_val m (hd_borrowed ov) (proj1 Hr') (proj2 Hr')) as (b' & Eb & _). rewrite Eb in Est.
     inversion Est; subst; cbn; discriminate.
 Qed.
+
+Theorem uis_no_panic c dist progs g ls t :
+  c < 16777215 -> reach_via ustep bounded_tag (uinit c dist progs) (g, ls) -> upc_of (ls t) <> UDead.
+Proof. intros Hc Hr. exact (uis_no_panic_cfg _ _ _ _ Hc Hr t). Qed.
